@@ -342,4 +342,32 @@ def step (st : St) : Op → St
 
 def run (st : St) (ops : List Op) : St := ops.foldl step st
 
+/-! ### BandChain answers (x/oracle/oracle.go): requests acknowledged with an id, answers delivered per id -/
+
+/-- request id ↦ the symbols that request asked for (`SetBandRequest`), and the last acknowledged id -/
+structure BandSt where
+  reqs : List (Nat × List Bytes) := []
+  last : Nat := 0
+deriving Repr, DecidableEq, Inhabited
+
+/-- `handleOracleAcknowledgment`: BandChain acknowledged a request for `symbols` with id `id` -/
+def bandAck (b : BandSt) (id : Nat) (symbols : List Bytes) : BandSt :=
+  { reqs := (id, symbols) :: b.reqs.filter (fun e => e.1 != id), last := id }
+
+def AUTOMATION : Bytes := ascii "automation"
+
+/-- the prices one answer writes: rate `i` becomes the band price of symbol `i` (`LegacyNewDecWithPrec(rate, multiplier)`) -/
+def bandPrices (symbols : List Bytes) (rates : List Int) (mult : Nat) (time height : Int) : List Price :=
+  (symbols.zip rates).map fun sr =>
+    { asset := sr.1, source := BAND, price := sr.2 * 10 ^ (18 - mult), provider := AUTOMATION, ts := toU64 time, height := toU64 height }
+
+/-- `handleOraclePacket` for request id `id`: `none` = refused (unknown request, or as many rates as symbols were not delivered);
+the state is then unchanged (the error acknowledgement discards the branch) -/
+def bandAnswer (st : St) (b : BandSt) (id : Nat) (rates : List Int) (mult : Nat) (time height : Int) : Option St :=
+  match b.reqs.lookup id with
+  | none => none
+  | some symbols =>
+    if symbols.length != rates.length then none
+    else some ((bandPrices symbols rates mult time height).foldl setPrice st)
+
 end Elys.Oracle
